@@ -196,4 +196,20 @@ theorem cmdArg_words (pad1 first : Str) (rest : List (Str × Str)) (pad2 : Str) 
     have : d :: w ++ ((rest.flatMap fun p => p.1 ++ p.2) ++ pad2) = d :: w ++ ((rest.flatMap fun p => p.1 ++ p.2) ++ pad2) := rfl
     rw [splitWs_word w d [] _ hf.2, List.nil_append, splitWs_words rest _ pad2 (by simp) h2 hr]
 
+/-! ### sequences on one `Eups` object -/
+
+theorem stepOut_state (ex : Bool) (pdir : Option Str) (fl text : Str) (ts : List Str) (st : Step) :
+    (stepOut ex pdir fl text ts st).2 = ts ∧ (stepOut ex pdir fl text ts st).1.state = ts := by
+  cases st <;> exact ⟨rfl, rfl⟩
+
+/-- no step changes the setup types of the object: every step of a sequence is evaluated for the initial types -/
+theorem runSeq_stable (ex : Bool) (pdir : Option Str) (fl text : Str) : ∀ (steps : List Step) (ts : List Str),
+    runSeq ex pdir fl text ts steps = steps.map fun st => (stepOut ex pdir fl text ts st).1 := by
+  intro steps
+  induction steps with
+  | nil => intro ts; rfl
+  | cons st r ih =>
+    intro ts
+    simp only [runSeq, List.map_cons, (stepOut_state ex pdir fl text ts st).1, ih]
+
 end EupsModel.SetupType
